@@ -57,6 +57,8 @@ impl<'a> ReMatcher<'a> {
     }
 
     pub(crate) fn match_at(&self, i: usize, anchored: bool) -> bool {
+        #[cfg(feature = "verif-hooks")]
+        crate::verif::step(crate::verif::site::MATCH_AT);
         // initialize start pointer, paren cache and paren count
         self.set_paren_count(1);
         self.state.borrow_mut().anchored_match = anchored;
@@ -64,6 +66,8 @@ impl<'a> ReMatcher<'a> {
 
         // allocate backref arrays (unless optimizations indicate otherwise)
         if self.program.optimization_flags & OPT_HASBACKREFS != 0 {
+            #[cfg(feature = "verif-hooks")]
+            crate::verif::step(crate::verif::site::BACKREF_ALLOC);
             self.state.borrow_mut().start_backref = vec![None; self.program.max_parens.unwrap()];
             self.state.borrow_mut().end_backref = vec![None; self.program.max_parens.unwrap()];
         }
@@ -81,6 +85,8 @@ impl<'a> ReMatcher<'a> {
     }
 
     pub(crate) fn matches(&mut self, i: usize) -> bool {
+        #[cfg(feature = "verif-hooks")]
+        crate::verif::step(crate::verif::site::MATCHES);
         // clear the captured group state
         self.state.borrow_mut().capture_state = CaptureState::new();
 
@@ -99,6 +105,8 @@ impl<'a> ReMatcher<'a> {
             // make sure it works correctly. But can be cleaned up.
             let mut nl: isize = i.try_into().unwrap();
             loop {
+                #[cfg(feature = "verif-hooks")]
+                crate::verif::step(crate::verif::site::MATCHES_BOL_SEEK);
                 nl = self
                     .search
                     .iter()
@@ -129,6 +137,8 @@ impl<'a> ReMatcher<'a> {
             // prefixed-anchored matching is possible
             let ignore_case = self.program.flags.is_case_independent();
             for j in i..self.search.len() + 1 - prefix.len() {
+                #[cfg(feature = "verif-hooks")]
+                crate::verif::step(crate::verif::site::MATCHES_PREFIX);
                 let mut prefix_ok = true;
                 if ignore_case {
                     for (k, prefix) in prefix.iter().enumerate() {
@@ -159,6 +169,8 @@ impl<'a> ReMatcher<'a> {
             // no prefix known; but the first character must match a predicate
             if let Some(inv_list) = &self.program.initial_char_class {
                 for j in i..self.search.len() {
+                    #[cfg(feature = "verif-hooks")]
+                    crate::verif::step(crate::verif::site::MATCHES_FIRSTSET);
                     if inv_list.contains(self.search[j]) && self.match_at(j, false) {
                         return true;
                     }
@@ -172,6 +184,8 @@ impl<'a> ReMatcher<'a> {
 
             // unprefixed matching must try for a match at each character
             for j in i..(self.search.len() + 1) {
+                #[cfg(feature = "verif-hooks")]
+                crate::verif::step(crate::verif::site::MATCHES_SCAN);
                 // try a match at index i
                 if self.match_at(j, false) {
                     return true;
@@ -187,6 +201,8 @@ impl<'a> ReMatcher<'a> {
 
     fn check_preconditions(&self, start: usize) -> bool {
         for precondition in &self.program.preconditions {
+            #[cfg(feature = "verif-hooks")]
+            crate::verif::step(crate::verif::site::PRECOND);
             if let Some(fixed_position) = precondition.fixed_position {
                 let match_ = precondition
                     .operation
@@ -202,6 +218,8 @@ impl<'a> ReMatcher<'a> {
                 }
                 let mut found = false;
                 for j in i..self.search.len() {
+                    #[cfg(feature = "verif-hooks")]
+                    crate::verif::step(crate::verif::site::PRECOND);
                     if (precondition.fixed_position.is_none()
                         || precondition.fixed_position == Some(j))
                         && precondition
@@ -235,6 +253,8 @@ impl<'a> ReMatcher<'a> {
 
         // try a match at each position
         while pos < len && self.matches(pos) {
+            #[cfg(feature = "verif-hooks")]
+            crate::verif::step(crate::verif::site::REPLACE_LOOP);
             // append chars from input string before match
             // TODO: what happens if this returns None as there is no paren start?
             if let Some(start) = self.get_paren_start(0) {
@@ -305,6 +325,8 @@ impl<'a> ReMatcher<'a> {
                                     if i >= replacement.len() {
                                         break;
                                     }
+                                    #[cfg(feature = "verif-hooks")]
+                                    crate::verif::step(crate::verif::site::REPLACE_MULTIDIGIT);
                                     let ch = replacement[i];
                                     if ch.is_ascii_digit() {
                                         let m = n * 10 + ((ch as usize) - ('0' as usize));
@@ -392,22 +414,32 @@ impl<'a> ReMatcher<'a> {
     }
 
     pub(crate) fn start_backref(&self, i: usize) -> Option<usize> {
+        #[cfg(feature = "verif-hooks")]
+        crate::verif::step(crate::verif::site::ST_BACKREF_GET);
         self.state.borrow().start_backref[i]
     }
 
     pub(crate) fn set_start_backref(&self, i: usize, value: Option<usize>) {
+        #[cfg(feature = "verif-hooks")]
+        crate::verif::step(crate::verif::site::ST_BACKREF_SET);
         self.state.borrow_mut().start_backref[i] = value;
     }
 
     pub(crate) fn end_backref(&self, i: usize) -> Option<usize> {
+        #[cfg(feature = "verif-hooks")]
+        crate::verif::step(crate::verif::site::ST_BACKREF_GET);
         self.state.borrow().end_backref[i]
     }
 
     pub(crate) fn set_end_backref(&self, i: usize, value: Option<usize>) {
+        #[cfg(feature = "verif-hooks")]
+        crate::verif::step(crate::verif::site::ST_BACKREF_SET);
         self.state.borrow_mut().end_backref[i] = value;
     }
 
     pub(crate) fn anchored_match(&self) -> bool {
+        #[cfg(feature = "verif-hooks")]
+        crate::verif::step(crate::verif::site::ST_ANCHORED);
         self.state.borrow().anchored_match
     }
 
@@ -436,6 +468,8 @@ impl<'a> ReMatcher<'a> {
     }
 
     pub(crate) fn get_paren_start(&self, group_nr: usize) -> Option<usize> {
+        #[cfg(feature = "verif-hooks")]
+        crate::verif::step(crate::verif::site::ST_PAREN_GET);
         if group_nr < self.state.borrow().capture_state.startn.len() {
             return self.state.borrow().capture_state.startn[group_nr];
         }
@@ -445,6 +479,8 @@ impl<'a> ReMatcher<'a> {
     /// Sets the start of the paren level
     /// which is the paren level, and i is index in input.
     pub(crate) fn set_paren_start(&self, group_nr: usize, position: usize) {
+        #[cfg(feature = "verif-hooks")]
+        crate::verif::step(crate::verif::site::ST_PAREN_SET);
         self.state
             .borrow_mut()
             .capture_state
@@ -452,6 +488,8 @@ impl<'a> ReMatcher<'a> {
     }
 
     pub(crate) fn get_paren_end(&self, group_nr: usize) -> Option<usize> {
+        #[cfg(feature = "verif-hooks")]
+        crate::verif::step(crate::verif::site::ST_PAREN_GET);
         if group_nr < self.state.borrow().capture_state.endn.len() {
             return self.state.borrow().capture_state.endn[group_nr];
         }
@@ -459,6 +497,8 @@ impl<'a> ReMatcher<'a> {
     }
 
     pub(crate) fn set_paren_end(&self, group_nr: usize, position: usize) {
+        #[cfg(feature = "verif-hooks")]
+        crate::verif::step(crate::verif::site::ST_PAREN_SET);
         self.state
             .borrow_mut()
             .capture_state
@@ -466,6 +506,8 @@ impl<'a> ReMatcher<'a> {
     }
 
     pub(crate) fn clear_captured_groups_beyond(&self, pos: usize) {
+        #[cfg(feature = "verif-hooks")]
+        crate::verif::step(crate::verif::site::ST_CLEAR_BEYOND);
         for i in 0..self.startn_len() {
             let start = self.capture_state_startn(i);
             if start >= Some(pos) {
@@ -489,18 +531,26 @@ impl<'a> ReMatcher<'a> {
     }
 
     pub(crate) fn paren_count(&self) -> usize {
+        #[cfg(feature = "verif-hooks")]
+        crate::verif::step(crate::verif::site::ST_PAREN_COUNT);
         self.state.borrow().capture_state.paren_count
     }
 
     pub(crate) fn set_paren_count(&self, count: usize) {
+        #[cfg(feature = "verif-hooks")]
+        crate::verif::step(crate::verif::site::ST_PAREN_COUNT);
         self.state.borrow_mut().capture_state.paren_count = count;
     }
 
     pub(crate) fn capture_state(&self) -> CaptureState {
+        #[cfg(feature = "verif-hooks")]
+        crate::verif::step(crate::verif::site::ST_SNAPSHOT);
         self.state.borrow().capture_state.clone()
     }
 
     pub(crate) fn reset_state(&self, capture_state: CaptureState) {
+        #[cfg(feature = "verif-hooks")]
+        crate::verif::step(crate::verif::site::ST_RESTORE);
         self.state.borrow_mut().capture_state = capture_state;
     }
 }
